@@ -200,10 +200,22 @@ func (s *skel) stmt(st ast.Stmt) {
 		}
 		for _, l := range x.Lhs {
 			t := s.text(l)
-			for _, p := range []string{"e.closed", "e.conn", "e.OverrideAddr", "e.OriginalAddr", "e.aclCache", "m.m["} {
+			for _, p := range []string{"e.closed", "e.conn", "e.OverrideAddr", "e.OriginalAddr", "e.aclCache", "m."} {
 				if strings.HasPrefix(t, p) {
 					s.emit("set(" + t + ")")
+					break
 				}
+			}
+		}
+		// where a slice comes from: a fresh make() or a view of something shared
+		if x.Tok == token.DEFINE && len(x.Lhs) == 1 && len(x.Rhs) == 1 {
+			switch r := x.Rhs[0].(type) {
+			case *ast.CallExpr:
+				if s.text(r.Fun) == "make" {
+					s.emit("def(" + s.text(x.Lhs[0]) + ":=make)")
+				}
+			case *ast.SliceExpr:
+				s.emit("def(" + s.text(x.Lhs[0]) + ":=" + s.text(r) + ")")
 			}
 		}
 	case *ast.IncDecStmt, *ast.DeclStmt, *ast.BranchStmt, *ast.EmptyStmt:
